@@ -2388,12 +2388,21 @@ func lastIndexRule(r *Report, rels ...string) {
 				continue
 			}
 			sub, ok := idx.(*ssa.BinOp)
-			if !ok || sub.Op != token.SUB {
+			if !ok || (sub.Op != token.SUB && sub.Op != token.ADD) {
 				continue
 			}
 			k, isK := constInt(sub.Y)
 			lc, isC := sub.X.(*ssa.Call)
-			if !isK || !isC || k < 1 {
+			if !isK || !isC {
+				continue
+			}
+			if sub.Op == token.ADD || k < 1 {
+				// x[len(x)+k], x[len(x)-0]: at or past the end whatever the length
+				if bi, isB := lc.Call.Value.(*ssa.Builtin); isB && bi.Name() == "len" && (lc.Call.Args[0] == base || pathOf(lc.Call.Args[0]) == pathOf(base)) {
+					n++
+					r.Touch(f)
+					r.Fail("path", fmt.Sprintf("%s: index len(x)%s%d #%d lies at or past the end", fnName(f), sub.Op, k, n), "x[len(x)+k] / x[len(x)-0] is out of range for every x: the panic, which nothing recovers, ends the proxy process as soon as the statement runs", nil, in.Pos())
+				}
 				continue
 			}
 			bi, isB := lc.Call.Value.(*ssa.Builtin)
